@@ -150,6 +150,15 @@ func genC14(seed uint64) *Scenario {
 			phaseIdle = append(phaseIdle, idle)
 		}
 	}
+	// stop-overlap: a catastrophic timed call starts a fraction of a period AFTER another client has posted its
+	// stop request and while that StopTimeoutClock is still waiting for the clock goroutine; the call extends the
+	// clock again and must time out when due.  (A call that computed its deadline just BEFORE the request loses
+	// its clock on the pinned tree as well -- DESIGN section 8 -- so the order is pinned by a barrier and a short sleep,
+	// and only where no fault can delay the stopping client.)
+	stopOverlap := withStops && (sc.Mode == "fair" || sc.Mode == "lockstep") && r.chance(1, 2)
+	if stopOverlap && ncl < 2 {
+		ncl = 2
+	}
 	for c := 0; c < ncl; c++ {
 		cost := p / int64(200+r.n(19800))
 		if cost < 1 {
@@ -247,8 +256,19 @@ func genC14(seed uint64) *Scenario {
 			}
 			if withStops && ph < nphases-1 {
 				cl.Ops = append(cl.Ops, Op{Kind: OpBarrier})
-				if c == 0 {
+				if c == 0 && stopOverlap {
+					cl.Ops = append(cl.Ops, Op{Kind: OpStopClock, N: 1})
+				} else if c == 0 {
 					cl.Ops = append(cl.Ops, Op{Kind: OpStopClock})
+				} else if c == 1 && stopOverlap {
+					for try := 0; try < 4; try++ {
+						f := catastrophic[r.n(len(catastrophic))]
+						op := Op{Kind: heavyKinds[r.n(len(heavyKinds))], Re: addRe(sc, ReSpec{Pat: f.Pat, Opts: f.Opts, Private: c + 1}), In: f.In, TimeoutNs: 2*p + r.i64(28*p), Heavy: true, N: -1, Repl: "<$0>"}
+						if v := pristine(sc.Res[op.Re], &op, defaultOpCap); v.capped && defaultOpCap*cost/4 > op.TimeoutNs+3*p {
+							cl.Ops = append(cl.Ops, Op{Kind: OpIdle, IdleNs: p/4 + r.i64(p/8)}, op)
+							break
+						}
+					}
 				}
 				cl.Ops = append(cl.Ops, Op{Kind: OpBarrier})
 			} else if lockstep && ph < nphases-1 {
